@@ -20,6 +20,7 @@ import os
 
 import z3
 
+from pyvc import SObj, ClassVal, Builtin
 from .common import mk_engine
 
 TITLE = "every field of every handled syntax node is consumed or rejected; unsupported node kinds raise"
@@ -322,4 +323,103 @@ def run(chk):
                         "`consumed` is a def-use notion: the field is read (or handed to a consumer that reads it); that the reader honours Python's meaning of the field is covered by the other properties",
                         "ast.NodeTransformer.generic_visit visits every child field (CPython)"]
     chk.not_covered += ["decorators/keywords of the outermost @guppy function are handled by the decorator itself", "comprehension internals (desugar_comprehension)"]
+    comprehension_clauses(chk)
+    chk.use_engine(e)
+
+
+CM_SNIPPET = '''
+class _CM:
+    def __init__(self, log, name):
+        self.log = log
+        self.name = name
+    def __enter__(self):
+        self.log.append(("enter", self.name))
+        return None
+    def __exit__(self, *a):
+        self.log.append(("exit", self.name))
+        return False
+
+class _ExitStack:
+    def __init__(self):
+        self.cms = []
+    def __enter__(self):
+        return self
+    def enter_context(self, cm):
+        v = cm.__enter__()
+        self.cms.append(cm)
+        return v
+    def __exit__(self, *a):
+        while self.cms:
+            self.cms.pop().__exit__(None, None, None)
+        return False
+'''
+
+
+def comprehension_clauses(chk):
+    """ExprCompiler._build_generators (compiler/expr_compiler.py), real code with recording context
+    managers: for a comprehension with generators g0..gk the loops are entered outermost first and
+    EVERY `if` clause of EVERY generator is entered, in source order, inside the loop of its own
+    generator and before the next generator's iterator is built — no clause is dropped, whichever
+    position its generator has.  (1..3 generators with 0..2 guards each.)"""
+    import itertools
+    EC = "guppylang_internals.compiler.expr_compiler"
+    e = mk_engine(chk)
+    e.func_info(EC, "ExprCompiler._build_generators")
+    m = e.module(EC)
+    n_ok = 0
+    for guards in [g for k in (1, 2, 3) for g in itertools.product((0, 1, 2), repeat=k)]:
+        def t(it, guards=guards):
+            ns = it.exec_snippet(m, CM_SNIPPET)
+            CM, ES = ns["_CM"], ns["_ExitStack"]
+            log = []
+            e.ext_models["contextlib.ExitStack"] = lambda it2, a, k: it.call(ES, [], {})
+            comp = SObj(ClassVal("StmtCompiler", builtin=True), {"dfg": None})
+            comp.fields["compile_stmts"] = Builtin("compile_stmts", lambda stmts, dfg: log.append(("iter-assign", stmts[0])))
+            comp.fields["_assign"] = Builtin("_assign", lambda tgt, w: log.append(("bind-target", tgt)))
+            e.models["guppylang_internals.compiler.stmt_compiler:StmtCompiler"] = lambda it2, a, k: comp
+            e.models["guppylang_internals.ast_util:get_type"] = lambda it2, a, k: SObj(ClassVal("Ty", builtin=True), {"to_hugr": Builtin("to_hugr", lambda c: "H")})
+            e.models["guppylang_internals.tys.builtin:bool_type"] = lambda it2, a, k: "bool"
+            e.ext_models["hugr.tys.Either"] = lambda it2, a, k: "EITHER"
+            e.ext_models["hugr.ops.Tag"] = lambda it2, a, k: ("Tag", a[0])
+            e.ext_models["hugr.ops.UnpackTuple"] = lambda it2, a, k: "UnpackTuple"
+            it.ctx.mod_globals(m)["tmp_vars"] = [f"%tmp{i}" for i in range(50)]
+            ECc = it.lookup_global(m, "ExprCompiler")
+            PN = it.lookup_global(e.module("guppylang_internals.nodes"), "PlaceNode")
+            TT = it.lookup_global(e.module("guppylang_internals.tys.ty"), "TupleType")
+            it.ctx.mod_globals(m)["TupleType"] = Builtin("TupleType", lambda xs: ("tuple-ty", tuple(xs)))
+            builder = SObj(ClassVal("Builder", builtin=True), {"add_op": Builtin("add_op", lambda op, *w: ("e", "i") if op == "UnpackTuple" else ("wire", op))})
+            dfg = it.exec_snippet(e.module(EC), "class _D:\n    def __init__(self, b):\n        self.builder = b\n        self.m = {}\n    def __getitem__(self, k):\n        return ('wire-of', k)\n    def __setitem__(self, k, v):\n        pass\nd = _D(b)\n", {"b": builder})["d"]
+            self_ = SObj(ECc, {"ctx": None, "dfg": dfg})
+            self_.fields["_new_loop"] = Builtin("_new_loop", lambda just, inputs, bp: it.call(CM, [log, ("loop", just[0].fields["gen"])], {}))
+            self_.fields["_if_else"] = Builtin("_if_else", lambda cond, inputs, **k: (it.call(CM, [log, ("has-next", cond)], {}), it.call(CM, [log, ("stop", cond)], {})))
+            self_.fields["_if_true"] = Builtin("_if_true", lambda cond, inputs: it.call(CM, [log, ("guard", cond)], {}))
+            gens = []
+            for gi, ng in enumerate(guards):
+                itp = SObj(PN, {"place": f"iter{gi}", "gen": gi})
+                gens.append(SObj(ClassVal("DesugaredGenerator", builtin=True), {"iter_assign": f"iter-assign{gi}", "iter": itp, "target": f"target{gi}", "next_call": f"next{gi}",
+                                                                                 "used_outer_places": [], "ifs": [f"g{gi}.if{j}" for j in range(ng)]}))
+            it.exec_snippet(m, "with self_._build_generators(gens, []):\n    log.append('BODY')\n", {"self_": self_, "gens": gens, "log": log})
+            return log
+
+        def post(p, guards=guards):
+            if p.kind != "return":
+                return z3.BoolVal(False)
+            log = p.value
+            body = log.index("BODY") if "BODY" in log else None
+            if body is None:
+                return z3.BoolVal(False)
+            before = [x for x in log[:body] if isinstance(x, tuple) and x[0] == "enter" and x[1][0] in ("loop", "guard")] + [x for x in log[:body] if isinstance(x, tuple) and x[0] == "iter-assign"]
+            seq = [x for x in log[:body] if (isinstance(x, tuple) and ((x[0] == "enter" and x[1][0] in ("loop", "guard")) or x[0] == "iter-assign"))]
+            want = []
+            for gi, ng in enumerate(guards):
+                want += [("iter-assign", f"iter-assign{gi}"), ("enter", ("loop", gi))] + [("enter", ("guard", f"g{gi}.if{j}")) for j in range(ng)]
+            exits = [x[1] for x in log[body:] if isinstance(x, tuple) and x[0] == "exit" and x[1][0] in ("loop", "guard")]
+            entered = [x[1] for x in seq if x[0] == "enter"]
+            return z3.BoolVal(seq == want and exits == list(reversed(entered)))
+        chk.prove_paths(f"ExprCompiler._build_generators[guards-per-generator={list(guards)}]:every-if-clause-of-every-generator-is-entered-inside-its-own-loop-in-source-order", e.explore(t), post,
+                        func=f"{EC}:ExprCompiler._build_generators")
+        n_ok += 1
+    chk.record("_build_generators:shapes-explored", n_ok >= 30, str(n_ok), kind="reachability")
+    for k in ("guppylang_internals.compiler.stmt_compiler:StmtCompiler", "guppylang_internals.ast_util:get_type", "guppylang_internals.tys.builtin:bool_type"):
+        e.models.pop(k, None)
     chk.use_engine(e)
